@@ -250,6 +250,21 @@ func (s *SUT) stop(d time.Duration) bool {
 	}
 }
 
+// finish stops the server and waits until every accepted connection's goroutine has finished
+// its teardown, so that no late event of this server leaks into the next scenario's trace.
+func (s *SUT) finish() {
+	s.tr.ReleaseAll()
+	s.stop(3 * time.Second)
+	deadline := time.Now().Add(3 * time.Second)
+	for time.Now().Before(deadline) {
+		if s.tr.Count("conn.gone", -1) >= s.tr.Count("run.added", -1) {
+			break
+		}
+		time.Sleep(time.Millisecond)
+	}
+	s.tr.ReleaseAll()
+}
+
 // ---- a raw LDAP client ---------------------------------------------------------------------------
 
 type rawClient struct {
